@@ -261,6 +261,20 @@ def run_bookkeeping():
         impl.sim.pump()
         if impl.sim.commands[n:] or a1.calls != [5]:
             viol.append(('set-attacher', 'consulted-after-removal', '%r %r' % (impl.sim.commands[n:], a1.calls)))
+        # install and removal pipelined: the removal is requested while the installing SETCONF is still unanswered
+        a3 = Attacher(lambda s: None, 'now')
+        n = len(impl.sim.commands)
+        impl.sim.hold_prefixes = ['SETCONF']
+        try:
+            st.set_attacher(a3, w.reactor)
+            st.set_attacher(None, w.reactor)
+        except RuntimeError as e:
+            viol.append(('set-attacher', 'pipelined-removal-raised', str(e)))
+        impl.sim.hold_prefixes = []
+        impl.sim.pump()
+        got = [c for c in impl.sim.commands[n:] if c.startswith('SETCONF')]
+        if got != ['SETCONF __LeaveStreamsUnattached=1', 'SETCONF __LeaveStreamsUnattached=0']:
+            viol.append(('set-attacher-setconf', 'remove-before-install-acknowledged', 'install + removal wrote %r' % (got,)))
         # after removal another attacher may be installed
         try:
             st.set_attacher(a2, w.reactor)
@@ -439,6 +453,12 @@ def run_partB(order, variant):
                     impl.sim.event('STREAM 19 NEW 0 unrelated.example:80 SOURCE_ADDR=192.168.1.9:%d PURPOSE=USER' % ports[1])
                 else:
                     impl.sim.event('STREAM 19 NEW 0 unrelated.example:80 SOURCE_ADDR=127.0.0.1:50000 PURPOSE=USER')
+            elif kind == 'F':
+                # the TCP connection of connection k to the SOCKS port is refused: no local address ever existed
+                from twisted.internet import error as _err
+                from twisted.python import failure as _fl
+                if eps[k].d is not None and not eps[k].d.called:
+                    eps[k].d.errback(_fl.Failure(_err.ConnectionRefusedError('injected: SOCKS port refused')))
             elif kind == 'L':
                 # the SOCKS connection of connection k dies before Tor ever announced a stream for it
                 if eps[k].wire is not None and eps[k].wire.lost_seq is None:
@@ -463,6 +483,10 @@ def run_partB(order, variant):
         for k in (1, 2):
             mine = [c for c in attach if c.split()[1] == str(sid[k])]
             other = 2 if k == 1 else 1
+            if variant == 'other-refused' and k == 2:
+                if len(recs[2].fires) != 1 or recs[2].kind != 'err':
+                    viol.append(('connect-outcome', 'socks-port-refused', 'connect() 2: %r' % (recs[2].summary(),)))
+                continue
             if variant == 'abandoned' and k == 1:
                 if len(recs[1].fires) != 1 or recs[1].kind != 'err':
                     viol.append(('connect-outcome', 'socks-connection-lost-before-stream', 'connect() 1: %r' % (recs[1].summary(),)))
@@ -503,7 +527,7 @@ def run_partB(order, variant):
 
 def orders_for(variant, tier):
     c1 = ('T1', 'M1', 'N1', 'S1') if variant != 'abandoned' else ('T1', 'M1', 'L1')
-    c2 = ('T2', 'M2', 'N2', 'S2')
+    c2 = ('T2', 'M2', 'N2', 'S2') if variant != 'other-refused' else ('F2',)
     extra = [('U',)]
     if variant == 'closing':
         extra.append(('X',))
@@ -532,7 +556,7 @@ def tasks(tier, seed):
             out.append(('A', ans, dl))
     out.append(('book',))
     out.append(('prio',))
-    for variant in ('plain', 'same-host', 'same-port-other-host', 'late-setconf-ack', 'building', 'closing', 'abandoned'):
+    for variant in ('plain', 'same-host', 'same-port-other-host', 'late-setconf-ack', 'building', 'closing', 'abandoned', 'other-refused'):
         n = len(orders_for(variant, tier))
         per = 400
         for i in range(0, n, per):
